@@ -423,3 +423,78 @@ def hairline_results(rnd, nscan):
         t, b = near_threshold(rnd, rnd.choice((3.0, 4.5, 7.0)), (0.02, 0.35))
         jobs.append((t, b, large, vr, 0 if k % 3 else 1))
     return [j for j in vlib.pool_map(_scan_hairline, jobs, chunksize=16) if j]
+
+
+def neargrey(rnd):
+    """an almost-grey colour: channels within 1..4 levels of each other (faint tint)"""
+    g = rnd.randrange(4, 252)
+    d = rnd.choice([1, 1, 2, 3, 4])
+    c = [g, g, g]
+    k = rnd.randrange(3)
+    c[k] = g + rnd.choice([-d, d])
+    if rnd.random() < 0.5:
+        c[(k + 1) % 3] = g + rnd.choice([-1, 0, 1])
+    return tuple(min(255, max(0, v)) for v in c)
+
+
+def hsl_exact_text(c):
+    """an hsl() spelling (6 decimals) that denotes exactly the 8-bit colour c, or None"""
+    import colorsys
+    h, l, s_ = colorsys.rgb_to_hls(c[0] / 255, c[1] / 255, c[2] / 255)
+    txt = "hsl(%.6f, %.6f%%, %.6f%%)" % (h * 360, s_ * 100, l * 100)
+    return txt if refs.css_read_opaque(txt) == tuple(c) else None
+
+
+def translucent_over(c, bg, rnd):
+    """a translucent spelling whose source-over composite on bg is (about) the colour c, in rgba()/informal forms the
+    parser accepts as four-number colours; None when c is not reachable with the chosen alpha"""
+    for a in (0.5, 0.6, 0.8, 0.4):
+        fg = [round((c[i] - (1 - a) * bg[i]) / a) for i in range(3)]
+        if all(0 <= v <= 255 for v in fg):
+            form = rnd.randrange(6)
+            r, g, b = fg
+            if form == 0:
+                return f"rgba({r}, {g}, {b}, {a})"
+            if form == 1:
+                return f"rgb({r} {g} {b} / {a})"
+            if form == 2:
+                return f"rgb({r}, {g}, {b}, {a})"
+            if form == 3:
+                return f"{r}, {g}, {b}, {a}"
+            if form == 4:
+                return (r, g, b, a)
+            return f"({r}, {g}, {b}, {a})"
+    return None
+
+
+_LUMB = None
+
+
+def ultra_hairline(rnd, dark, t, span=0.0009):
+    """partners of the dark colour `dark` whose ratio lies within `span` below (or just above) the requirement t:
+    for each (r, g) the blue level is solved from the luminance tables; -> list of (partner, ratio)"""
+    global _LUMB
+    import bisect
+    if _LUMB is None:
+        _LUMB = [0.0722 * refs._LIN[v] for v in range(256)]
+    ld = refs.wcag_lum(dark)
+    need = t * (ld + 0.05) - 0.05
+    out = []
+    for r in range(0, 256, rnd.choice((1, 2, 3))):
+        lr = 0.2126 * refs._LIN[r]
+        if lr > need + 1e-9:
+            break
+        for g in range(rnd.randrange(2), 256, 2):
+            rest = need - lr - 0.7152 * refs._LIN[g]
+            if rest < -1e-4:
+                break
+            if rest > _LUMB[255] + 1e-4:
+                continue
+            b = bisect.bisect_left(_LUMB, rest)
+            for bb in (b - 1, b):
+                if 0 <= bb <= 255:
+                    c = (r, g, bb)
+                    ratio = refs.wcag_ratio(c, dark)
+                    if t - span <= ratio < t + span / 3:
+                        out.append((c, ratio))
+    return out
